@@ -12,6 +12,7 @@ import (
 	"os"
 	"path/filepath"
 	"runtime/debug"
+	"runtime/pprof"
 	"sort"
 	"strconv"
 	"strings"
@@ -42,6 +43,15 @@ func main() {
 	list := flag.Bool("list", false, "list anchor names matching -dump substring")
 	verif := flag.String("verif", "", "verif directory (default: directory above the binary's dir, or cwd)")
 	flag.Parse()
+	// the loaded program is a large, long-lived heap: collect less often (the facts engine allocates many small slices)
+	debug.SetGCPercent(400)
+	if pf := os.Getenv("SLOGCHECK_PROF"); pf != "" {
+		if f, err := os.Create(pf); err == nil {
+			pprof.StartCPUProfile(f)
+			defer pprof.StopCPUProfile()
+			profStop = pprof.StopCPUProfile
+		}
+	}
 
 	if *tier == "" {
 		*tier = os.Getenv("VERIF_TIER")
@@ -120,6 +130,7 @@ func main() {
 			t0 = time.Now()
 		}
 	}()
+	profStop()
 	os.Exit(code)
 }
 
@@ -146,3 +157,5 @@ func dumpFns(P *Prog, pat string, list bool) {
 		}
 	}
 }
+
+var profStop = func() {}
